@@ -204,6 +204,52 @@ def cuts_in_ranges(r, ranges):
     return False
 
 
+class ChunkMaker:
+    """What a producer hands over for a chunk of the stream: a fresh bytes /
+    bytearray / memoryview object, or - the readinto() idiom - ONE buffer it
+    owns and refills for every chunk: as a memoryview over the filled part
+    ('mv_reused'), or as the bytearray itself whenever the chunk fills it
+    ('ba_reused').  Whoever is handed such a chunk has to copy what it wants
+    to keep: the buffer is overwritten for the next chunk and scrubbed when
+    the stream has been delivered."""
+
+    FRESH = {'bytes': bytes, 'bytearray': bytearray, 'memoryview': memoryview}
+    KINDS = tuple(FRESH) + ('mv_reused', 'ba_reused')
+    SCRUB = 0xA5
+
+    def __init__(self, kind, sizes):
+        self.kind = kind or 'bytes'
+        self.buf = None
+        self.reused = 0
+        if self.kind in ('mv_reused', 'ba_reused'):
+            sizes = [x for x in sizes if x] or [1]
+            # the producer's buffer is as large as its usual read
+            big = max(sizes)
+            usual = max(set(sizes), key=lambda x: (sizes.count(x), x))
+            self.buf = bytearray(usual if self.kind == 'ba_reused' else big)
+
+    def make(self, chunk):
+        if self.buf is None:
+            conv = self.FRESH[self.kind]
+            return chunk if conv is bytes else conv(chunk)
+        n = len(chunk)
+        if n > len(self.buf) or (self.kind == 'ba_reused' and
+                                 n != len(self.buf)):
+            # does not fit / does not fill the buffer: a copy of its own
+            return bytearray(chunk) if self.kind == 'ba_reused' \
+                else memoryview(bytes(chunk))
+        self.scrub()
+        self.buf[:n] = chunk
+        self.reused += 1
+        if self.kind == 'ba_reused':
+            return self.buf
+        return memoryview(self.buf)[:n]
+
+    def scrub(self):
+        if self.buf is not None:
+            self.buf[:] = bytes([self.SCRUB]) * len(self.buf)
+
+
 class SimSource:
     """Source handed to InspectWrapper.
 
@@ -222,7 +268,7 @@ class SimSource:
              'memoryview': memoryview}
 
     def __init__(self, data, plan, fault=None, has_close=True, kind=None):
-        self.kind = self.KINDS.get(kind or 'bytes', bytes)
+        self.maker = ChunkMaker(kind, plan)
         self.data = data
         self.plan = list(plan)
         self.k = 0
@@ -260,12 +306,15 @@ class SimSource:
 
     def _out(self, chunk):
         # what the consumer is handed: bytes, or another bytes-like kind
-        return chunk if self.kind is bytes else self.kind(chunk)
+        return self.maker.make(chunk)
 
     # file personality
     def read(self, size=-1):
         self._fault_check()
-        return self._out(self._take(size))
+        chunk = self._take(size)
+        if not chunk:
+            self.maker.scrub()
+        return self._out(chunk)
 
     # iterator personality
     def __iter__(self):
@@ -275,11 +324,13 @@ class SimSource:
         self._fault_check()
         if self.k >= len(self.plan) and self.pos >= len(self.data):
             self.stopped = True
+            self.maker.scrub()
             raise StopIteration
         return self._out(self._take())
 
     def close(self):
         self.closed += 1
+        self.maker.scrub()
 
 
 class SimSourceError(Exception):
